@@ -138,6 +138,18 @@ def step (d : DSt) (args : List String) : DSt × String :=
         (d', showRes r.2 ++ " " ++ showState d')
       | none => (d, "bad-op")
     | none => (d, "bad-op")
+  | "wasm" :: t :: c :: depth :: g :: ms =>
+    -- contract `c` dispatches ONE CosmosMsg::Any at block time `t`: `depth` nested authz.MsgExec wrappers (grantee `g`)
+    -- around the messages `ms`; depth 0 = the single message bare
+    match parseNat? t, parseNat? c, parseNat? depth, parseNat? g with
+    | some t, some c, some depth, some g =>
+      match ms.mapM (parseMsg? t) with
+      | some msgs =>
+        let r := wasm d.s c depth g msgs
+        let d' := { d with s := r.1, now := t }
+        (d', showRes r.2 ++ " " ++ showState d')
+      | none => (d, "bad-op")
+    | _, _, _, _ => (d, "bad-op")
   | ["fund", a, dn, amt] =>
     match parseNat? a, parseNat? dn, parseNat? amt with
     | some a, some dn, some amt => apply d d.now (.fund a dn amt)
